@@ -95,6 +95,11 @@ def cb3(field, observers):
     return _call("cb3", field, observers)
 
 
+def cbp(field, observers, params=None):
+    """field function with bound, mutable parameters (used through functools.partial)"""
+    return _call("cb0", field, observers) * (params or {}).get("amp", 1.0)
+
+
 CALLBACKS = {"cb0": cb0, "cb1": cb1, "cb2": cb2, "cb3": cb3}
 
 
